@@ -31,6 +31,21 @@ Theorem split_outputs_partition_source :
 Proof. exact sel_partition. Qed.
 Print Assumptions split_outputs_partition_source.
 
+(* ... with nothing duplicated or dropped (the lengths add up), and an element
+   appears on some side iff it is in that source prefix *)
+Theorem split_outputs_lengths :
+  forall xs cs,
+    length (sel xs cs true) + length (sel xs cs false) = Nat.min (length xs) (length cs).
+Proof. exact sel_lengths. Qed.
+Print Assumptions split_outputs_lengths.
+
+Theorem split_outputs_membership :
+  forall xs cs x,
+    In x (firstn (Nat.min (length xs) (length cs)) xs) <->
+    In x (sel xs cs true) \/ In x (sel xs cs false).
+Proof. exact sel_membership. Qed.
+Print Assumptions split_outputs_membership.
+
 (* The source is pulled once per element, in order, never past its end; a
    callable condition is evaluated exactly once per element, in order, and only
    on elements already pulled (b <= n); an iterable condition is pulled once per
